@@ -780,7 +780,26 @@ func runC01(c *Ctx) {
 		instrsOfU(cl, func(in ssa.Instruction) {
 			if isCall(in, "builtin.copy") {
 				a := in.(*ssa.Call).Call.Args
-				if _, isMk := rootOf(a[0]).(*ssa.MakeSlice); isMk && isFieldLoad(a[1], "vnet.chunkUDP", "userData") {
+				// the whole payload: the field itself or a full re-slice of it (src[:len(src)])
+				wholePayload := func(v ssa.Value) bool {
+					for i := 0; i < 3; i++ {
+						sl, ok := v.(*ssa.Slice)
+						if !ok {
+							break
+						}
+						if sl.Low != nil {
+							if k, isC := constInt(sl.Low); !isC || k != 0 {
+								return false
+							}
+						}
+						if sl.High != nil && !isLenOf(origin(sl.High), func(x ssa.Value) bool { return sameOrigin(x, sl.X) }) {
+							return false
+						}
+						v = sl.X
+					}
+					return isFieldLoad(v, "vnet.chunkUDP", "userData")
+				}
+				if _, isMk := rootOf(a[0]).(*ssa.MakeSlice); isMk && wholePayload(a[1]) {
 					ok2 = true
 				}
 				// the fresh slice is first stored as the clone's payload and filled through that field
